@@ -17,11 +17,15 @@ from engine import stabgen as sg
 from drivers.c09 import adj_of, adj_out, graph_out
 
 
-def obs_of_state(qs, n):
+def obs_of_state(qs, n, order=None):
     """QuantumState -> (fn, out) for Trace_Graphs"""
     rt = qs.rep_type
     if rt == "g":
-        o = graph_out(qs.rep_data.data, n)
+        gr = qs.rep_data.data
+        if order is not None and list(gr.nodes()) == list(order):
+            # the caller's own labelled graph came back (g -> g): read it in the library's convention, by position
+            gr = nx.relabel_nodes(gr, {v: k for k, v in enumerate(order)})
+        o = graph_out(gr, n)
         o["err"] = ""
         return "to_graph", o
     if rt == "s":
@@ -43,17 +47,20 @@ def guarded(fn, via, f, extra=None):
     return e
 
 
-def graph_events(g, n, rng, do_dm, nsets):
+def graph_events(g, n, rng, do_dm, nsets, gp=None):
+    """g: the graph handed to the library (its node INSERTION order may differ from the label order); gp: the same
+    graph relabelled by position (k-th inserted node = qubit k, the library's convention) - what the harness uses."""
     import graphiq.backends.state_rep_conversion as rc
     from graphiq.state import QuantumState
     evs = []
-    a = adj_of(g, n)
+    gp = g if gp is None else gp
+    a = adj_of(gp, n)
     if do_dm:
         evs.append(guarded("to_pv", "graph_to_density(nx)", lambda: pj.pv_obs(rc.graph_to_density(g.copy()), n)))
         evs.append(guarded("to_pv", "graph_to_density(adj)", lambda: pj.pv_obs(rc.graph_to_density(a.copy()), n)))
 
         def dm2g():
-            rho = pj.rows_to_dm(sg.graph_generators(g, n))
+            rho = pj.rows_to_dm(sg.graph_generators(gp, n))
             o = adj_out(rc.density_to_graph(rho), n)
             o["err"] = ""
             return o
@@ -66,7 +73,7 @@ def graph_events(g, n, rng, do_dm, nsets):
         return o
     evs.append(guarded("to_stab", "graph_to_stabilizer(nx)", lambda: g2s(g.copy())))
     evs.append(guarded("to_stab", "graph_to_stabilizer(adj)", lambda: g2s(a.copy())))
-    gens = sg.graph_generators(g, n)
+    gens = sg.graph_generators(gp, n)
     for k in range(nsets):
         rows = gens if k == 0 else sg.random_regauge(rng, gens)
         st = sg.stabilizer_tableau(rows)
@@ -86,7 +93,7 @@ def graph_events(g, n, rng, do_dm, nsets):
             def conv():
                 qs = cz.target_state(g.copy(), src)
                 qs.convert_representation(dst)
-                fn, o = obs_of_state(qs, n)
+                fn, o = obs_of_state(qs, n, order=list(g.nodes()))
                 conv.fn = fn
                 return o
             conv.fn = {"g": "to_graph", "s": "to_stab", "dm": "to_pv"}[dst]
@@ -128,6 +135,25 @@ def run(ctx):
             tid += 1
             traces.append({"tid": tid, "meta": {"n": n, "base": cz.graph_edges1(g)}, "n": n, "base": cz.graph_edges1(g),
                            "need_orbit": False, "events": graph_events(g, n, rng, do_dm=(n <= 4), nsets=2 if ctx.quick else 4)})
+    # the same graphs with a node INSERTION order that is not the label order (qubit k = k-th inserted node)
+    for n in (3, 4) if ctx.quick else (3, 4, 5):
+        for gi, g in enumerate(cz.all_graphs(n)):
+            if g.number_of_edges() == 0 or (ctx.quick and gi % 4) or (n == 5 and gi % 8):
+                continue
+            order = list(range(n))
+            while order == list(range(n)):
+                rng.shuffle(order)
+            gsh = nx.Graph()
+            gsh.add_nodes_from(order)
+            gsh.add_edges_from(g.edges())
+            gp = nx.relabel_nodes(gsh, {v: k for k, v in enumerate(order)})
+            gp2 = nx.Graph()
+            gp2.add_nodes_from(range(n))
+            gp2.add_edges_from(gp.edges())
+            tid += 1
+            traces.append({"tid": tid, "meta": {"n": n, "base": cz.graph_edges1(gp2), "insertion_order": order}, "n": n,
+                           "base": cz.graph_edges1(gp2), "need_orbit": False,
+                           "events": graph_events(gsh, n, rng, do_dm=(n <= 4), nsets=1, gp=gp2)})
     evs = []
     for n, nsets in ((1, 1), (2, 2), (3, 1 if ctx.quick else 6)):
         for grp in sg.enumerate_groups(ctx, n):
